@@ -38,19 +38,31 @@ impl Spec {
 }
 
 const MAIN_PATHS: &[&str] = &[
-    "m0.lua", "m1.lua", "sub/m2.lua", "sub/init.lua", "pkg/deep/m3.lua", "init.lua", "m4.lua", "x-y.lua", "sub/m0.lua", "zz.lua",
+    "m0.lua", "m1.lua", "foo.lua", "sub/bar/init.lua", "sub/m2.lua", "sub/init.lua", "pkg/deep/m3.lua", "init.lua", "m4.lua", "x-y.lua", "sub/m0.lua", "zz.lua",
 ];
 const DESCS: &[&str] = &["first text", "second text", "Third.", "zeta", "alpha"];
 
 fn gen_spec(rng: &mut Rng, mode: usize) -> Spec {
     let mut sp = Spec::default();
-    let nfiles = rng.range(2, 6);
+    let mut nfiles = rng.range(2, 6);
     let mut paths: Vec<&str> = MAIN_PATHS.to_vec();
     let mut chosen = Vec::new();
     for _ in 0..nfiles {
         let i = rng.below(paths.len());
         chosen.push(paths.remove(i).to_string());
     }
+    // modules with EQUAL names: `x.lua` and `x/init.lua` are both module `x` (ties of a name-only sort key)
+    for (a, b) in [("foo.lua", "foo/init.lua"), ("sub/bar.lua", "sub/bar/init.lua"), ("m1.lua", "m1/init.lua")] {
+        if rng.chance(2, 5) {
+            for f in [a, b] {
+                if !chosen.iter().any(|c| c == f) {
+                    chosen.push(f.to_string());
+                }
+            }
+            sp.features.insert("modules-with-equal-names".into());
+        }
+    }
+    nfiles = chosen.len();
     let mut texts: Vec<String> = vec![String::new(); nfiles];
     let mut ns: Vec<Option<String>> = vec![None; nfiles];
     for i in 0..nfiles {
@@ -113,7 +125,9 @@ fn gen_spec(rng: &mut Rng, mode: usize) -> Spec {
                                 String::new()
                             };
                             let desc_line = if mode >= 3 { format!("---{} (other part of {})\n", d, name) } else { String::new() };
-                            let extra = format!("{}---@class {}{}\n---@field g{} string\n\n", desc_line, name, parent2, j);
+                            // both parts declare a member of the same name
+                            texts[i].push_str(&format!("---@class {}\n---@field dup integer\n\n", name));
+                            let extra = format!("{}---@class {}{}\n---@field g{} string\n---@field dup string\n\n", desc_line, name, parent2, j);
                             texts[j].push_str(&extra);
                             add_type(&mut sp, full(&ns[j], &name), "class", &chosen[j]);
                             sp.features.insert(if mode >= 3 { "split-class-desc".into() } else { "split-class".into() });
@@ -137,6 +151,15 @@ fn gen_spec(rng: &mut Rng, mode: usize) -> Spec {
                     tcount += 1;
                     texts[i].push_str(&format!("---@alias {} {}\n\n", name, rng.pick(&["string|integer", "integer", "fun(x: integer): string", "'a'|'b'"])));
                     add_type(&mut sp, full(&ns[i], &name), "alias", &chosen[i]);
+                    // the same alias name declared again in another file
+                    if mode >= 3 && nfiles > 1 && rng.chance(1, 3) {
+                        let j = (i + 1 + rng.below(nfiles - 1)) % nfiles;
+                        if ns[j] == ns[i] {
+                            texts[j].push_str(&format!("---@alias {} boolean\n\n", name));
+                            add_type(&mut sp, full(&ns[j], &name), "alias", &chosen[j]);
+                            sp.features.insert("alias-in-two-files".into());
+                        }
+                    }
                 }
                 _ => {
                     // global
